@@ -1,0 +1,9 @@
+//go:build !verif
+
+package dhcp
+
+// verifRequestPreWrite marks the point of handleRequest after the client's lease has been read
+// (under the read lock) and everything the new lease needs has been decided - authentication,
+// pool reservation, session id - and before the new lease is written into the lease table. It
+// does nothing unless the package is built with the verif tag (see verif_hooks_prewrite.go).
+func (s *Server) verifRequestPreWrite() {}
